@@ -3,7 +3,7 @@ import ast
 
 from ..core import AnalysisError, dotted, call_name, src, walk_local, const_value
 from ..flow import edge_facts
-from ..rules import flow_of, inline_helpers, calls_in, bind_args, canon, facts_at, cmp_norm, state_writes, region, who_calls, emptiness
+from ..rules import flow_of, inline_helpers, calls_in, bind_args, canon, facts_at, cmp_norm, state_writes, region, who_calls, emptiness, uncopy_deep
 from ..booltable import compare
 
 EXPLANATION = ("StochasticNetwork: by enumeration of every path through plugin, each path performs exactly one placement - super().plugin(ev) "
@@ -61,7 +61,7 @@ def rule_plugin(ck):
         c = [c for nn, c in calls_in(fl, "plugin") if nn is n][0]
         ck.require(c.args and dotted(c.args[0]) == ev, "C19.R1", f, c, ok="the arriving EV itself is connected", bad="super().plugin is not given the arriving EV", sink="plugin:super-arg")
         ups = [(nn, cc) for nn, cc in calls_in(fl, "update_station_id") if cfg.dominates(nn, n) and dotted(cc.func.value) == ev]
-        ok = bool(ups) and canon(fl.expand(ups[-1][1].args[0], ups[-1][0])) == "random.choice(self.available_evses())"
+        ok = bool(ups) and canon(uncopy_deep(fl.expand(ups[-1][1].args[0], ups[-1][0]))) == "random.choice(self.available_evses())"
         ck.require(ok, "C19.R2", f, ups[-1][1] if ups else c, ok="station drawn by random.choice from the free stations, recorded on the EV before connecting",
                    bad="the EV's station is not set to random.choice(self.available_evses()) before it is connected", sink="plugin:choice")
         ok = emptiness(fl, n, "self.available_evses()") == "nonempty"
@@ -208,7 +208,7 @@ def rule_early(ck):
         ok = var is not None and canon(b.get("station_id")) == f"{var}.station_id" and canon(b.get("session_id")) == f"{var}.session_id"
         ck.require(ok, "C19.R6", f, c, ok="unplugs that EV by its own station and session", bad="the early unplug is not unplug(ev.station_id, ev.session_id)", sink="early:args")
         if loops:
-            it = fl.expand(loops[-1].stmt.iter, loops[-1])
+            it = uncopy_deep(fl.expand(loops[-1].stmt.iter, loops[-1]))
             good = False
             why = "candidates are not a filtered list of the EVSEs' EVs"
             if isinstance(it, ast.ListComp) and len(it.generators) == 1:
